@@ -1,6 +1,8 @@
 -- driver: proto Um.Drv.Proto
 import UmModel.Proto
 import UmModel.ReplProto
+import UmModel.ProtoCommit
+import UmDriver.Broker
 import UmDriver.Common
 /-!
 Line protocol of the C17 stream (`umh_proto`).  Every Rust string travels as one hex token
@@ -18,6 +20,13 @@ Line protocol of the C17 stream (`umh_proto`).  Every Rust string travels as one
   DEC    := X | E | D DATA      (what the real `from_compressed_data` made of the 4th string token)
 
 Renderings of parse results use the same syntax, node maps sorted by address.
+
+The commit leg (`C17_task_commit`) keeps a broker store as driver state:
+  b <broker op line>          forwarded to the broker driver (`UmDriver/Broker.lean` grammar)
+  served <addr> <limit>       → `S <hex>*`: the INFOMGR strings of the tagged slot ranges
+                                `get_proxy_by_address` serves for that proxy's nodes
+  commitdesc ELEM <clear>     one INFOMGR reply element → coordinator parser → `commit_migration`
+                              → `REJECT` (not parsed) | `OK g=<epoch>` | `ERR <code> g=<epoch>`
 -/
 namespace Um.Drv.Proto
 open Um Um.Proto
@@ -44,7 +53,7 @@ def pMany {α : Type} (p : P α) : Nat → P (List α)
     let (xs, r') ← pMany p n r
     pure (x :: xs, r')
 
-def pRange : P Range := fun ts => do
+def pRange : P Proto.Range := fun ts => do
   let (s, r) ← pNat ts
   let (e, r) ← pNat r
   pure (⟨s, e⟩, r)
@@ -173,7 +182,7 @@ def sp (l : List String) : String := " ".intercalate l
 
 def rBool (b : Bool) : String := if b then "1" else "0"
 def rStr (s : Str) : String := hexOfBytes s
-def rRange (r : Range) : List String := [toString r.s, toString r.e]
+def rRange (r : Proto.Range) : List String := [toString r.s, toString r.e]
 def rMig (m : MigrationMeta) : List String :=
   [toString m.epoch, rStr m.srcProxy, rStr m.srcNode, rStr m.dstProxy, rStr m.dstNode]
 
@@ -241,7 +250,34 @@ def asciiSkeleton : Bool → Str → Str
     if b ≥ 0x80 then (if inRun then asciiSkeleton true r else 63 :: asciiSkeleton true r)
     else b :: asciiSkeleton false r
 
-def step (_ : Unit) (toks : List String) : Unit × String :=
+/-- the commit leg: ops that read or change the broker store -/
+def stepStore (st : Um.Broker.Store) (toks : List String) : Option (Um.Broker.Store × String) :=
+  match toks with
+  | "b" :: rest => some (Um.Drv.Broker.step st rest)
+  | ["served", a, l] =>
+    match l.toNat? with
+    | none => none
+    | some l =>
+      match servedDescriptors st a l with
+      | .ok ds => some (st, sp ("S" :: ds.map fun d => rStr (infoMgrEncode d)))
+      | .err e => some (st, "ERR " ++ e.code)
+      | .panic _ => some (st, "PANIC")
+      | .badChoice w => some (st, "BAD-CHOICE " ++ w)
+  | ["commitdesc", h, clear] =>
+    match pElem h with
+    | none => none
+    | some e =>
+      match infoMgrElem e with
+      | none => some (st, "REJECT")
+      | some t =>
+        match commitDescriptor st t (clear == "1") with
+        | (s', .ok _) => some (s', s!"OK g={s'.globalEpoch}")
+        | (s', .err er) => some (s', s!"ERR {er.code} g={s'.globalEpoch}")
+        | (_, .panic _) => some (st, "PANIC")
+        | (_, .badChoice w) => some (st, "BAD-CHOICE " ++ w)
+  | _ => none
+
+def stepPure (toks : List String) : String :=
   let out : Option String :=
     match toks with
     | "toargs" :: o :: r => do
@@ -327,7 +363,12 @@ def step (_ : Unit) (toks : List String) : Unit × String :=
       let s ← bytesOfHex h
       pure (rBool (validUtf8 s))
     | _ => none
-  ((), out.getD "bad-op")
+  out.getD "bad-op"
 
-def run : IO Unit := Um.Drv.loop () step
+def step (st : Um.Broker.Store) (toks : List String) : Um.Broker.Store × String :=
+  match toks with
+  | "b" :: _ | "served" :: _ | "commitdesc" :: _ => (stepStore st toks).getD (st, "bad-op")
+  | _ => (st, stepPure toks)
+
+def run : IO Unit := Um.Drv.loop Um.Broker.Store.init step
 end Um.Drv.Proto
